@@ -11,7 +11,15 @@ import (
 func NewImportMap() *ModuleImportMap {
 	return NewModuleImportMap(
 		common.WithAliasSanitizer[ModuleImportMap](func(alias string) string {
-			return strings.ReplaceAll(alias, "/", "")
+			alias = strings.ReplaceAll(alias, "/", "")
+
+			// a module known under the name of a parameter or of a variable of the generated
+			// methods (`def from_json(cls, data)`, `for item in …`) would be hidden by it
+			if isUsedByGeneratedMethods(alias) {
+				return alias + "_module"
+			}
+
+			return alias
 		}),
 		common.WithFormatter(func(importMap ModuleImportMap) string {
 			if importMap.Imports.Len() == 0 {
@@ -100,4 +108,21 @@ func (im ModuleImportMap) Sort() {
 
 func (im ModuleImportMap) String() string {
 	return im.config.Formatter(im)
+}
+
+// isUsedByGeneratedMethods tells whether a name is one that the methods written
+// for every class use for their parameters and variables.
+func isUsedByGeneratedMethods(name string) bool {
+	switch name {
+	case "self", "cls", "data", "args", "loaded", "payload", "item", "key":
+		return true
+	}
+
+	// `key1`, `key2`, …: the keys of nested maps
+	suffix, isKey := strings.CutPrefix(name, "key")
+	if !isKey || suffix == "" {
+		return false
+	}
+
+	return strings.Trim(suffix, "0123456789") == ""
 }
